@@ -45,6 +45,7 @@ class ProbeBase(BaseException):
 
 
 OUTCOMES = ["ret", "exc", "base", "block"]
+RUNAWAY = 3000  # far above anything a legal schedule produces (<= 60 invocations in 120 virtual seconds)
 
 
 def budget(tier: str) -> dict[str, Any]:
@@ -140,6 +141,11 @@ def _make_actor(script: list[dict[str, Any]], log: list[Any], name: str) -> Any:
             loop = asyncio.get_event_loop()
             i = self.n
             self.n += 1
+            if self.n > RUNAWAY:
+                # logical-step verdict: the run logic is being re-invoked in a tight loop
+                if not any(e.get("ev") == "runaway" for e in log):
+                    log.append({"ev": "runaway", "actor": name, "t": loop.time(), "invocations": self.n})
+                raise ProbeBase()
             self.depth += 1
             log.append({"ev": "enter", "actor": name, "run": i, "t": loop.time(), "depth": self.depth})
             spec = script[i] if i < len(script) else {"points": 1, "at": 0, "outcome": "block", "on_cancel": "propagate"}
@@ -266,6 +272,11 @@ def _judge_actor(case: dict[str, Any], log: list[Any], rec: Any) -> None:
     rec.count("run_enters_observed", len(enters))
     trace = [{k: v for k, v in e.items() if k != "task"} for e in log][:60]
     w0 = {"limit": limit, "delay": delay, "trace": trace}
+    for e in log:
+        if e.get("ev") == "runaway":
+            rec.violation("run-logic-re-invoked-in-a-tight-loop", {"limit": limit, "delay": delay, "invocations": e["invocations"],
+                                                                   "trace": trace[:25]})
+            return
     for e in enters:
         if e["depth"] > 1:
             rec.violation("run-logic-active-twice-concurrently", w0)
